@@ -140,6 +140,9 @@ func init() {
 		"math/bits.LeadingZeros64":  func(i *interpreter, fr *frame, fn *ssa.Function, args []value) value { return bitsLZ(args[0], 64) },
 		"math/bits.OnesCount32":     func(i *interpreter, fr *frame, fn *ssa.Function, args []value) value { return bitsPop(args[0], 32) },
 		"math/bits.OnesCount64":     func(i *interpreter, fr *frame, fn *ssa.Function, args []value) value { return bitsPop(args[0], 64) },
+		"context.WithTimeout":  ctxNoDeadline,
+		"context.WithDeadline": ctxNoDeadline,
+		"context.WithCancel":   ctxNoDeadline,
 		"sort.Slice":       sortSlice,
 		"sort.SliceStable": sortSlice,
 		"strings.Compare": func(i *interpreter, fr *frame, fn *ssa.Function, args []value) value {
@@ -856,4 +859,11 @@ func bitsPop(x value, w int) value {
 		r = mkBin(OpAdd, r, mkResize(mkExtract(t, b, b), 64, false))
 	}
 	return mkSym(types.Int, r)
+}
+
+// ctxNoDeadline models context.WithTimeout/WithDeadline/WithCancel: the
+// parent context itself and a cancel function that does nothing (deadlines
+// never fire: timing is outside every claim).
+func ctxNoDeadline(i *interpreter, fr *frame, fn *ssa.Function, args []value) value {
+	return tuple{args[0], &nativeFn{name: "cancel", f: func([]value) value { return nil }}}
 }
